@@ -13,6 +13,7 @@
 #define EXP_MAX (1 << 20)
 typedef long long R;
 #define LEDGER_OK(x) ((x) == INF || (x) == -INF || (-FIN <= (x) && (x) <= FIN))
+#define FINITE(x) (-FIN <= (x) && (x) <= FIN)
 #define ISINF(x) ((x) == INF || (x) == -INF)
 #define LD(x, e) (ISINF(x) ? (x) : (x) + (e))
 #define EOK(e) (-EXP_MAX <= (e) && (e) <= EXP_MAX)
@@ -36,14 +37,14 @@ __CPROVER_requires(0 <= g_i && g_i < nr && 0 <= g_j && g_j < MATW && g_rcell == 
 __CPROVER_requires(0 <= g_c && g_c < nc && 0 <= g_d && g_d < MATW && g_ccell == g_c * MATW + g_d && g_cs == colsize[g_c] && 0 <= g_cs && g_cs <= MATW)
 __CPROVER_requires(0 <= rowidxs[g_rcell] && rowidxs[g_rcell] < nc && 0 <= colidxs[g_ccell] && colidxs[g_ccell] < nr)
 __CPROVER_requires(EOK(rowexp[g_i]) && EOK(colexp[g_c]) && EOK(colexp[rowidxs[g_rcell]]) && EOK(rowexp[colidxs[g_ccell]]))
-__CPROVER_requires(o_rv == rowvals[g_rcell] && LEDGER_OK(o_rv) && n_rv == (g_j < g_rs ? LD(o_rv, (SGN) * (rowexp[g_i] + colexp[rowidxs[g_rcell]])) : o_rv))
-__CPROVER_requires(o_cv == colvals[g_ccell] && LEDGER_OK(o_cv) && n_cv == (g_d < g_cs ? LD(o_cv, (SGN) * (colexp[g_c] + rowexp[colidxs[g_ccell]])) : o_cv))
-__CPROVER_requires(o_lhs == lhs[g_i] && LEDGER_OK(o_lhs) && n_lhs == LD(o_lhs, (SGN) * rowexp[g_i]))
-__CPROVER_requires(o_rhs == rhs[g_i] && LEDGER_OK(o_rhs) && n_rhs == LD(o_rhs, (SGN) * rowexp[g_i]))
-__CPROVER_requires(o_robj == rowobj[g_i] && LEDGER_OK(o_robj) && n_robj == LD(o_robj, (SGN) * rowexp[g_i]))
-__CPROVER_requires(o_low == low[g_c] && LEDGER_OK(o_low) && n_low == LD(o_low, -(SGN) * colexp[g_c]))
-__CPROVER_requires(o_up == up[g_c] && LEDGER_OK(o_up) && n_up == LD(o_up, -(SGN) * colexp[g_c]))
-__CPROVER_requires(o_obj == obj[g_c] && LEDGER_OK(o_obj) && n_obj == LD(o_obj, (SGN) * colexp[g_c]))
+__CPROVER_requires(o_rv == rowvals[g_rcell] && FINITE(o_rv) && n_rv == (g_j < g_rs ? LD(o_rv, (SGN) * (rowexp[g_i] + colexp[rowidxs[g_rcell]])) : o_rv))
+__CPROVER_requires(o_cv == colvals[g_ccell] && FINITE(o_cv) && n_cv == (g_d < g_cs ? LD(o_cv, (SGN) * (colexp[g_c] + rowexp[colidxs[g_ccell]])) : o_cv))
+__CPROVER_requires(o_lhs == lhs[g_i] && (FINITE(o_lhs) || o_lhs == -INF) && n_lhs == LD(o_lhs, (SGN) * rowexp[g_i]))
+__CPROVER_requires(o_rhs == rhs[g_i] && (FINITE(o_rhs) || o_rhs == INF) && n_rhs == LD(o_rhs, (SGN) * rowexp[g_i]))
+__CPROVER_requires(o_robj == rowobj[g_i] && FINITE(o_robj) && n_robj == LD(o_robj, (SGN) * rowexp[g_i]))
+__CPROVER_requires(o_low == low[g_c] && (FINITE(o_low) || o_low == -INF) && n_low == LD(o_low, -(SGN) * colexp[g_c]))
+__CPROVER_requires(o_up == up[g_c] && (FINITE(o_up) || o_up == INF) && n_up == LD(o_up, -(SGN) * colexp[g_c]))
+__CPROVER_requires(o_obj == obj[g_c] && FINITE(o_obj) && n_obj == LD(o_obj, (SGN) * colexp[g_c]))
 __CPROVER_assigns(gp_rowvals, gp_colvals, gp_lhs, gp_rhs, gp_rowobj, gp_low, gp_up, gp_obj, gp_rowsize, gp_colsize, gp_rv, gp_cv, gp_isScaled)
 __CPROVER_assigns(*isScaled, __CPROVER_object_whole(rowvals), __CPROVER_object_whole(colvals), __CPROVER_object_whole(lhs), __CPROVER_object_whole(rhs))
 __CPROVER_assigns(__CPROVER_object_whole(rowobj), __CPROVER_object_whole(low), __CPROVER_object_whole(up), __CPROVER_object_whole(obj))
